@@ -1,6 +1,6 @@
 (* C01Proofs.v — the procedure of Authn.v against the declarative AuthnSpec.v, and the handlers of
    Token.v / Authorize.v when authentication fails. *)
-From Verif Require Import Base Scope Types Prog Pop Token Authorize Authn AuthnSpec Tactics.
+From Verif Require Import Base Scope Types Prog Pop Token Authorize Authn AuthnSpec AuthnLink Tactics.
 Local Open Scope N_scope.
 Set Warnings "-unused-intro-pattern".
 Import Bool.
@@ -266,4 +266,246 @@ Proof.
     apply find_some in E2 as [E2 E3]. apply andb_true_iff in E3 as [E3 E4].
     apply negb_true_iff in E3. simpl. intro H. reflect_ids.
     split; auto. exists ct, ks, j. repeat split; auto.
+Qed.
+
+Lemma authenticate_complete g c x rq :
+  method_credential g x c rq -> unambiguous c rq -> fst (authenticate g c x rq) = true.
+Proof.
+  unfold authenticate, method_credential. rewrite authn_method_spec.
+  intros H Hu. destruct (registered_method c x); simpl; auto; try contradiction.
+  - (* basic *)
+    destruct H as (s & H1 & H2). unfold authenticate_secret_basic, validate_secret.
+    rewrite H1, H2. assert (E : ideq (ca_id c) (ca_id c) = true) by (apply ideq_eq; auto).
+    rewrite E. simpl. apply N.eqb_refl.
+  - (* post *)
+    destruct H as (H1 & H2 & H3). unfold authenticate_secret_post, validate_secret.
+    rewrite H1, H3. assert (E : ideq (ca_id c) (ca_id c) = true) by (apply ideq_eq; auto).
+    rewrite E. simpl. apply is_nil_neq in H2. rewrite H2. apply N.eqb_refl.
+  - (* secret jwt *)
+    destruct H as (Ht & a & Ha & Hp & Hs & Hg & Hl & Hc).
+    unfold authenticate_secret_jwt, assertion_of. rewrite Ht, Ha. simpl.
+    apply authn_sig_algs_spec in Hp. rewrite Hp. simpl.
+    unfold verifies_hmac. rewrite Hs, Hg, Hl. simpl.
+    assert (E : N.eqb (ca_secret c) (ca_secret c) = true) by apply N.eqb_refl. rewrite E. simpl.
+    apply are_claims_valid_complete; auto.
+  - (* private key jwt *)
+    destruct H as (Ht & a & ks & j & Ha & Hp & Hk & Hj & Hd & Hpub & Hs & Hf & Hc).
+    unfold authenticate_private_key_jwt, assertion_of. rewrite Ht, Ha. simpl.
+    apply authn_sig_algs_spec in Hp. rewrite Hp. simpl.
+    pose proof (fetch_public_jwks_spec c rq) as Hk'. rewrite Hk in Hk'.
+    destruct (fetch_public_jwks c rq) as [keys fetched]. simpl in Hk'. subst keys.
+    destruct (Hu ks Hk) as [Hu1 _].
+    assert (E : jwk_matching_header ks a = Some j).
+    { unfold jwk_matching_header.
+      pose proof (proj1 (designated_dec j a) Hd) as Hdd.
+      destruct (negb (N.eqb (as_kid a) 0)) eqn:Ek.
+      - destruct (find_exists (fun j0 => N.eqb (jk_kid j0) (as_kid a)) ks j Hj Hdd) as [y Hy].
+        rewrite Hy. f_equal. eapply find_unique; eauto.
+        intros u v Iu Iv Fu Fv. apply (Hu1 a u v); auto; apply designated_dec; rewrite Ek; auto.
+      - destruct (find_exists (fun j0 => match jk_alg j0 with Some x0 => alg_eqb x0 (as_alg a) | None => false end) ks j Hj Hdd) as [y Hy].
+        rewrite Hy. f_equal. eapply find_unique; eauto.
+        intros u v Iu Iv Fu Fv. apply (Hu1 a u v); auto; apply designated_dec; rewrite Ek; auto. }
+    rewrite E, Hpub. simpl. unfold verifies_pub. rewrite Hs, Hf, N.eqb_refl. simpl.
+    apply are_claims_valid_complete; auto.
+  - (* tls *)
+    destruct H as (H1 & ct & (Hc1 & Hc2) & Hm).
+    unfold authenticate_tls, client_cert. rewrite H1, Hc1, Hc2.
+    assert (E : ideq (ca_id c) (ca_id c) = true) by (apply ideq_eq; auto). rewrite E. simpl.
+    destruct Hm as [(Ha & Hb)|[(Ha & Hb & Hc)|(Ha & Hb & ip & Hc & Hd)]].
+    + destruct (is_empty (ca_tls_dn c)) eqn:E1; simpl.
+      * apply is_empty_spec in E1. congruence.
+      * apply seqb_eq; auto.
+    + apply is_empty_spec in Ha. rewrite Ha. simpl.
+      destruct (is_empty (ca_tls_dns c)) eqn:E1; simpl.
+      * apply is_empty_spec in E1. congruence.
+      * apply mem_In; auto.
+    + apply is_empty_spec in Ha, Hb. rewrite Ha, Hb, Hc. simpl. apply memN_In; auto.
+  - (* self-signed *)
+    destruct H as (H1 & ct & ks & j & (Hc1 & Hc2) & Hk & Hj & Hnz & Hjc & Hjk).
+    unfold authenticate_self_signed_tls, client_cert. rewrite H1, Hc1, Hc2.
+    assert (E : ideq (ca_id c) (ca_id c) = true) by (apply ideq_eq; auto). rewrite E. simpl.
+    pose proof (fetch_public_jwks_spec c rq) as Hk'. rewrite Hk in Hk'.
+    destruct (fetch_public_jwks c rq) as [keys fetched]. simpl in Hk'. subst keys.
+    destruct (Hu ks Hk) as [_ Hu2].
+    set (f := fun j0 : jwk => andb (negb (N.eqb (jk_cert j0) 0)) (N.eqb (jk_cert j0) (ct_id ct))).
+    assert (Fj : f j = true).
+    { unfold f. apply andb_true_iff. split. - apply negb_true_iff. apply N.eqb_neq; auto. - apply N.eqb_eq; auto. }
+    destruct (find_exists f ks j Hj Fj) as [y Hy]. rewrite Hy.
+    assert (y = j).
+    { eapply find_unique; eauto. intros u v Iu Iv Fu Fv. unfold f in Fu, Fv.
+      apply andb_true_iff in Fu as [_ Fu]. apply andb_true_iff in Fv as [_ Fv]. reflect_ids.
+      apply (Hu2 ct u v); auto. }
+    subst y. simpl. apply N.eqb_eq; auto.
+Qed.
+
+(* ---- clientutil.Authenticated ---- *)
+Lemma find_aclient_id i cls c : find_aclient i cls = Some c -> ca_id c = i.
+Proof. unfold find_aclient. intro H. apply find_some in H as [_ H]. apply ideq_eq in H. auto. Qed.
+
+Lemma authn_sound_l g x cls rq c :
+  authenticated g x cls rq = Some c -> ca_id c <> 0 -> registered cls c /\ valid_credential g x c rq.
+Proof.
+  unfold authenticated, authenticated_full, registered, valid_credential.
+  destruct (extract_id g rq) as [| |i] eqn:E; simpl; try discriminate.
+  destruct (find_aclient i cls) as [c'|] eqn:F; simpl; try discriminate.
+  pose proof (authenticate_sound g c' x rq) as Hs.
+  destruct (authenticate g c' x rq) as [ok f]. simpl in *.
+  destruct ok; simpl; try discriminate. intro H; injection H as ->. intro Hid.
+  pose proof (find_aclient_id _ _ _ F) as Hi. subst i.
+  split; auto. split; auto. apply extract_id_identifies; auto.
+Qed.
+
+Lemma authn_complete_l g x cls rq c :
+  registered cls c -> valid_credential g x c rq -> unambiguous c rq -> authenticated g x cls rq = Some c.
+Proof.
+  unfold authenticated, authenticated_full, registered, valid_credential.
+  intros Hr [Hi Hm] Hu. apply extract_id_identifies in Hi. rewrite Hi, Hr.
+  pose proof (authenticate_complete g c x rq Hm Hu) as Hc.
+  destruct (authenticate g c x rq) as [ok f]. simpl in *. subst ok. reflexivity.
+Qed.
+
+(* a request that names nobody, or names clients that disagree, authenticates nobody *)
+Lemma authn_needs_identification_l g x cls rq c :
+  authenticated g x cls rq = Some c -> extract_id g rq = IdOk (ca_id c).
+Proof.
+  unfold authenticated, authenticated_full.
+  destruct (extract_id g rq) as [| |i] eqn:E; simpl; try discriminate.
+  destruct (find_aclient i cls) as [c'|] eqn:F; simpl; try discriminate.
+  destruct (authenticate g c' x rq) as [ok f]. destruct ok; simpl; try discriminate.
+  intro H; injection H as ->. apply find_aclient_id in F. subst; auto.
+Qed.
+
+(* the decision procedure of the specification decides the specification *)
+Lemma opt_alg_eqb_eq a b : opt_alg_eqb a b = true <-> a = b.
+Proof.
+  destruct a, b; simpl; split; intro H; try discriminate; auto.
+  - apply alg_eqb_eq in H. subst; auto.
+  - injection H as ->. apply alg_eqb_eq; auto.
+Qed.
+
+(* ---- unauthenticated requests are inert ---- *)
+Lemma run_log_bind {A B} (p : prog A) (f : A -> prog B) : forall st log,
+  run_log (bind p f) st log =
+  let '(st', a, l) := run_log p st log in run_log (f a) st' (rev l).
+Proof.
+  induction p as [a|c k IH|o p IH]; intros st log; simpl.
+  - rewrite rev_involutive. reflexivity.
+  - destruct (exec c st) as [st' r]. apply IH.
+  - apply IH.
+Qed.
+
+Lemma run_log_seq {A} (p : prog A) : forall st log, fst (run_log p st log) = run_seq p st.
+Proof.
+  induction p as [a|c k IH|o p IH]; intros st log; simpl; auto.
+  destruct (exec c st) as [st' r]. apply IH.
+Qed.
+
+Lemma authenticated_refuses w st cr :
+  unauthenticated w st cr ->
+  exists log, run_log (Token.authenticated w cr) st [] = (st, None, log) /\ only_client_reads log = true.
+Proof.
+  unfold unauthenticated, lookup, Token.authenticated, get_client. intros H.
+  destruct (is_nil (cr_id cr)) eqn:E0; [exists []; auto|].
+  apply is_nil_neq in E0. destruct H as [H|H]; [congruence|].
+  destruct (find_client (cr_id cr) (w_static w)) as [c|] eqn:E1; simpl.
+  - destruct H as [H|(c' & H1 & H2 & H3)]; [discriminate|]. injection H1 as <-.
+    rewrite H2, H3. simpl. exists []; auto.
+  - destruct (find_client (cr_id cr) (st_clients st)) as [c|] eqn:E2; simpl.
+    + destruct H as [H|(c' & H1 & H2 & H3)]; [discriminate|]. injection H1 as <-.
+      rewrite H2, H3. simpl. exists [KCGet]; auto.
+    + exists [KCGet]; auto.
+Qed.
+
+Lemma refused_step (w : world) st cr (k : option client -> prog out) pre :
+  unauthenticated w st cr -> k None = Ret (OErr EInvalidClient) ->
+  refused_inert (bind (Token.authenticated w cr) k) st pre.
+Proof.
+  intros H Hk. destruct (authenticated_refuses w st cr H) as (log & Hl & Ho).
+  exists EInvalidClient, log. rewrite run_log_bind, Hl, Hk. simpl. rewrite rev_involutive. auto.
+Qed.
+
+Lemma refused_early st e : e <> EInvalidClient \/ True -> refused_inert (Ret (OErr e)) st false.
+Proof. intros _. exists e, []. simpl. repeat split; auto. discriminate. Qed.
+
+Ltac early := match goal with |- refused_inert (Ret (OErr ?e)) ?st _ =>
+  exists e, []; simpl; repeat split; auto; discriminate end.
+
+Lemma inert_code w n now r st :
+  unauthenticated w st (t_cred r) -> refused_inert (code_grant w n now r) st (pre_code w r).
+Proof.
+  intro H. unfold code_grant, pre_code.
+  destruct (has_grant GAuthorizationCode (cf_grants (w_cfg w))); simpl; [|early].
+  destruct (is_nil (t_code r)); simpl; [early|]. apply refused_step; auto.
+Qed.
+
+Lemma inert_refresh w n now r st :
+  unauthenticated w st (t_cred r) -> refused_inert (refresh_grant w n now r) st (pre_refresh w r).
+Proof.
+  intro H. unfold refresh_grant, pre_refresh.
+  destruct (has_grant GRefreshToken (cf_grants (w_cfg w))); simpl; [|early].
+  destruct (is_nil (t_refresh r)); simpl; [early|]. apply refused_step; auto.
+Qed.
+
+Lemma inert_cc w n now r st :
+  unauthenticated w st (t_cred r) -> refused_inert (cc_grant w n now r) st (pre_cc w).
+Proof.
+  intro H. unfold cc_grant, pre_cc.
+  destruct (has_grant GClientCredentials (cf_grants (w_cfg w))); simpl; [|early]. apply refused_step; auto.
+Qed.
+
+Lemma inert_ciba w n now r st :
+  unauthenticated w st (t_cred r) -> refused_inert (ciba_grant w n now r) st (pre_ciba w).
+Proof.
+  intro H. unfold ciba_grant, pre_ciba.
+  destruct (has_grant GCiba (cf_grants (w_cfg w))); simpl; [|early]. apply refused_step; auto.
+Qed.
+
+Lemma inert_par w n now r st :
+  unauthenticated w st (pr_cred r) -> refused_inert (push_auth w n now r) st (cf_par_enabled (w_cfg w)).
+Proof.
+  intro H. unfold push_auth.
+  destruct (cf_par_enabled (w_cfg w)); simpl; [|early]. apply refused_step; auto.
+Qed.
+
+Lemma inert_bc w n now r st :
+  unauthenticated w st (br_cred r) -> refused_inert (init_back_auth w n now r) st (cf_ciba_enabled (w_cfg w)).
+Proof.
+  intro H. unfold init_back_auth.
+  destruct (cf_ciba_enabled (w_cfg w)); simpl; [|early]. apply refused_step; auto.
+Qed.
+
+Lemma inert_introspect w now r st :
+  unauthenticated w st (q_cred r) -> refused_inert (introspect w now r) st (cf_introspection (w_cfg w)).
+Proof.
+  intro H. unfold introspect.
+  destruct (cf_introspection (w_cfg w)); simpl; [|early]. apply refused_step; auto.
+Qed.
+
+Lemma inert_revoke w now r st :
+  unauthenticated w st (q_cred r) -> refused_inert (revoke w now r) st (cf_revocation (w_cfg w)).
+Proof.
+  intro H. unfold revoke.
+  destruct (cf_revocation (w_cfg w)); simpl; [|early]. apply refused_step; auto.
+Qed.
+
+(* what refused_inert says about the sequential run: same store, an error answer *)
+Lemma refused_inert_seq p st pre :
+  refused_inert p st pre -> exists e, run_seq p st = (st, OErr e) /\ (pre = true -> e = EInvalidClient).
+Proof.
+  intros (e & log & H & _ & Hp). exists e. split; auto.
+  rewrite <- (run_log_seq p st []), H. reflexivity.
+Qed.
+
+(* when the procedure of Authn.v answers None, the abstract credential it amounts to is refused *)
+Lemma authn_none_unauthenticated g x cls rq w st :
+  agrees x cls w st -> Authn.authenticated g x cls rq = None -> unauthenticated w st (cred_of g x cls rq).
+Proof.
+  intros Ha Hn. unfold unauthenticated, cred_of. rewrite Hn. simpl.
+  unfold Authn.authenticated, authenticated_full in Hn.
+  destruct (extract_id g rq) as [| |i] eqn:E; auto.
+  specialize (Ha i). right.
+  destruct (find_aclient i cls) as [ac|] eqn:F.
+  - destruct (lookup w st i) as [c|]; [|contradiction]. right. exists c. repeat split; auto.
+    rewrite Ha. unfold authenticate in Hn. destruct (authn_method ac x); simpl in *; auto; discriminate.
+  - destruct (lookup w st i); [contradiction|]. auto.
 Qed.
